@@ -1664,6 +1664,10 @@ func (c *c6sk) stmt(s ast.Stmt, ind string) ([]string, error) {
 		return one("KOther", s, c6x(c.fset, x.X))
 	case *ast.ReturnStmt:
 		return one("KReturn", s, c.xs(x.Results))
+	case *ast.DeferStmt:
+		return one("KOther", s, "defer "+c6x(c.fset, x.Call))
+	case *ast.GoStmt:
+		return one("KOther", s, "go "+c6x(c.fset, x.Call))
 	case *ast.BlockStmt:
 		return c.list(x.List, ind)
 	case *ast.IfStmt:
